@@ -246,7 +246,8 @@ contract('Model.reset_cache', file=F, props=['C08', 'C14'], params=dict(self=M),
          requires=lambda C: And(C.self.memo.wf,
                                 FA('idx', lambda i: Implies(And(0 <= i, i < C.self.agents.len), C.self.agents[i] != NULL))),
          modifies=['Model.memo', 'DataCollector.agent_statistics', 'DataCollector.event_statistics', 'Agent.properties'],
-         ensures=lambda C: FA('str', lambda e: Implies(C.self.memo.has(e), C.self.memo[e].size == 0)),
+         ensures=lambda C: And(FA('str', lambda e: Implies(C.self.memo.has(e), C.self.memo[e].size == 0)), C.self.memo.wf,
+                               FA('str', lambda e: C.self.memo.has(e) == C.old.self.memo.has(e))),
          loops={0: lambda C: And(C.self.memo.z == C.old.self.memo.z, C.self.agents.z == C.old.self.agents.z),
                 1: lambda C: And(C.self.memo.keys.z == C.old.self.memo.keys.z, C.self.memo.wf,
                                  FA('str', lambda e: C.self.memo.has(e) == C.old.self.memo.has(e)),
